@@ -12,9 +12,11 @@ import (
 	"context"
 	"fmt"
 	"math/rand"
+	"runtime"
 	"strconv"
 	"strings"
 	"sync"
+	"sync/atomic"
 	"time"
 
 	"github.com/samber/ro"
@@ -100,6 +102,9 @@ func runCollectCase(c *Case) string {
 func runCollectCase1(c *Case) string {
 	if c.get("mode", "sync") == "wait" {
 		return runWaitCase(c)
+	}
+	if c.get("mode", "sync") == "race" {
+		return runCollectRace(c)
 	}
 	script, err := parseScript(c.get("src", "-"))
 	if err != nil {
@@ -295,6 +300,80 @@ func runWaitCase(c *Case) string {
 	return fmt.Sprintf("res %s %s early=%d", c.id, line, early)
 }
 
+// mode=race — Collect against a goroutine-driven source whose terminal is issued at (almost) the very
+// moment the subscribe function returns to Collect: producer and subscribe function meet on a spin
+// barrier, then each spins for a few iterations (every pair of a small grid) before emitting /
+// returning. Collect must have waited for the terminal callback in every trial: all trials give the
+// result the model gives for the script; the first deviating trial is reported as `unstable=`.
+//go:noinline
+func collectSpin(n int) int {
+	x := 0
+	for i := 0; i < n; i++ {
+		x += i
+	}
+	return x
+}
+
+func runCollectRace(c *Case) string {
+	script, err := parseScript(c.get("src", "-"))
+	if err != nil || len(script) == 0 {
+		return "res " + c.id + " bad-script"
+	}
+	subCtx := ctxFromMarks(parseInts(strings.ReplaceAll(c.get("sub", "-"), ".", ",")))
+	setRecorder(nil)
+	n, _ := strconv.Atoi(c.get("n", "200"))
+	first := ""
+	for trial := 0; trial < n; trial++ {
+		dm, dp := trial%13, (trial/13)%13*3
+		var ready, start int32
+		src := ro.NewUnsafeObservableWithContext(func(ctx context.Context, dest ro.Observer[int]) ro.Teardown {
+			go func() {
+				atomic.StoreInt32(&ready, 1)
+				for atomic.LoadInt32(&start) == 0 {
+				}
+				for _, t := range script[:len(script)-1] {
+					emit(dest, ctx, t)
+				}
+				collectSpin(dp)
+				emit(dest, ctx, script[len(script)-1])
+			}()
+			for atomic.LoadInt32(&ready) == 0 {
+				runtime.Gosched()
+			}
+			atomic.StoreInt32(&start, 1)
+			collectSpin(dm)
+			return nil
+		})
+		obs, ok := buildCaseObs(c, src)
+		if !ok {
+			return "res " + c.id + " unsupported"
+		}
+		done := make(chan string, 1)
+		go func() {
+			s, ok := collectAny(obs, subCtx)
+			if !ok {
+				s = "unsupported"
+			}
+			done <- s
+		}()
+		var got string
+		select {
+		case got = <-done:
+		case <-time.After(2 * time.Second):
+			got = "ret=0 vals=- err=- lctx=- stuck=hangs"
+		}
+		if got == "unsupported" {
+			return "res " + c.id + " unsupported"
+		}
+		if first == "" {
+			first = got
+		} else if got != first {
+			return fmt.Sprintf("res %s %s unstable=trial%d:%s", c.id, first, trial, strings.ReplaceAll(got, " ", ","))
+		}
+	}
+	return "res " + c.id + " " + first
+}
+
 func genCollect(tier string, seed int64, only string) []*Case {
 	r := rand.New(rand.NewSource(seed*3571 + 9))
 	lists := [][]int{{}, {2}, {-1, 0}, {3, 2, 3}}
@@ -343,6 +422,17 @@ func genCollect(tier string, seed int64, only string) []*Case {
 		}
 	}
 	if only == "" {
+		// Collect racing the terminal of a goroutine-driven source (mode=race)
+		trials := "200"
+		if tier == "thorough" {
+			trials = "3000"
+		}
+		for _, ops := range []string{"Skip/plain/-/0", "Map/ctx/dbl+t53/-", "Skip/plain/-/0|TakeLast/plain/-/2"} {
+			for _, src := range []string{"E4@1", "N1@1,E4@2", "N1@1,N2@2,C@3", "C@1", "N3@1,N1@2,N2@3,E5@4"} {
+				id++
+				cases = append(cases, newCase(id, "kind", "collect", "ops", ops, "mode", "race", "n", trials, "sub", "7", "src", src))
+			}
+		}
 		for i := 0; i < nChains; i++ {
 			n := 2 + r.Intn(4)
 			stages := make([]string, n)
